@@ -278,7 +278,17 @@ func startServer(t *testing.T, cfg srvCfg) (*srvRun, error) {
 	s.start = time.Now()
 	go srv.Run()
 	synctest.Wait()
+	// the idle goroutine count of this process: goroutines outside the bubble that are just going away (left over from
+	// earlier tests, a finalizer) must not be counted, or "back at the idle count" would come true while a handler still runs
 	s.base = runtime.NumGoroutine()
+	for stable := 0; stable < 30; {
+		runtime.Gosched()
+		if n := runtime.NumGoroutine(); n < s.base {
+			s.base, stable = n, 0
+		} else {
+			stable++
+		}
+	}
 	n := 1
 	if cfg.hasRange {
 		n = int(cfg.rangeE-cfg.rangeB) + 1
@@ -326,11 +336,15 @@ func (s *srvRun) round(pkt []byte, arp []arpResp) roundObs {
 	return r
 }
 
+// waitQuiet returns when the handlers of the packets injected so far are done.  While a DISCOVER handler searches it holds
+// the database lock across its ARP probes; reading the table then would block this goroutine on a mutex, which the
+// virtual clock does not count as waiting: the bubble would stand still for ever (seen twice in thorough sweeps, with
+// the idle count spoilt as described in startServer).  So never return while an ARP receive socket is open.
 func waitQuiet(s *srvRun) {
 	deadline := time.Now().Add(s.maxBusy)
 	for {
 		synctest.Wait()
-		if runtime.NumGoroutine() <= s.base || time.Now().After(deadline) {
+		if s.seg.Listeners(rsocks.KindARP) == 0 && (runtime.NumGoroutine() <= s.base || time.Now().After(deadline)) {
 			break
 		}
 		time.Sleep(time.Millisecond)
